@@ -924,11 +924,12 @@ pub fn history(d: &mut D) {
     }
 }
 
-/// C14: every configuration size 1..=16, every selector below n in every order.
+/// C14: every configuration size 0..=16 (an endpoint without vendor ID sets is a legal configuration: every
+/// selector is then out of range), every selector below n in every order.
 pub fn vendor_enum(d: &mut D) {
     d.std_ctxs();
     let reps = if d.thorough { 40 } else { 3 };
-    for n in 1..=16usize {
+    for n in 0..=16usize {
         for rep in 0..reps {
             let vs: Vec<(u8, [u8; 4], [u8; 2])> = (0..n)
                 .map(|i| {
@@ -977,6 +978,11 @@ pub fn vendor_enum(d: &mut D) {
                 }
                 s = nxt;
             }
+            if n == 0 {
+                for s in [0u64, 1, 0xFE, 0xFF] {
+                    ask(d, s);
+                }
+            }
             // every selector below n, in random order, repeated, interleaved with other traffic
             let mut order: Vec<u64> = (0..n as u64).collect();
             for i in (1..order.len()).rev() {
@@ -1021,7 +1027,11 @@ pub fn identity(d: &mut D) {
                 }
             }
             let addr = d.g.byte() & 0x7F;
-            d.new_ctx(5, addr, &mts, &[(0, [0, 0, 1, 2], [3, 4])]);
+            if rep % 3 == 1 {
+                d.new_ctx(5, addr, &mts, &[]);
+            } else {
+                d.new_ctx(5, addr, &mts, &[(0, [0, 0, 1, 2], [3, 4])]);
+            }
             // the order of the three queries rotates from call to call, so that each of them is at times the
             // last packet before a state change (and is then retransmitted right after it, see D::ex)
             let mut turn = 0usize;
